@@ -9,6 +9,7 @@
 import Coraza.Proofs.Tf
 import Coraza.Model.TfChain
 import Coraza.Model.UrlDecodeUni
+import Coraza.Model.Transformations2
 import Coraza.Base.Lit
 open Coraza Coraza.Tf
 
@@ -247,3 +248,128 @@ example : urlDecodeUni (b!"%u%41") = ⟨b!"%uA", true, false⟩ := by decide +ke
 example : urlDecodeUni (b!"id=1%u+or") = ⟨b!"id=1%u or", true, false⟩ := by decide +kernel
 example : urlDecodeUni (b!"%uff1cscript%u2019") = ⟨b!"<script'", true, false⟩ := by decide +kernel
 example : urlDecodeUni (b!"%u00") = ⟨b!"%u00", false, false⟩ := by decide +kernel
+
+/-! ## jsDecode, cmdLine, removeCommentsChar, compressWhitespace (Model/Transformations2.lean) -/
+
+theorem removeCommentsCharF_flag (f : Nat) (x : Bytes) (hl : x.length < f) (h : (removeCommentsCharF f x).2 = false) :
+    (removeCommentsCharF f x).1 = x := by
+  induction f generalizing x with
+  | zero => omega
+  | succ f ih =>
+    cases x with
+    | nil => simp [removeCommentsCharF]
+    | cons b tl =>
+      have hl' : tl.length < f := by simp at hl; omega
+      unfold removeCommentsCharF at h ⊢
+      split at h
+      all_goals first
+        | (simp at h; done)
+        | (have := ih tl hl' (by simpa using h); simp_all)
+
+theorem compressWsAux_flag (x : Bytes) (inWs : Bool) (h : (compressWsAux x inWs).2 = false) :
+    (compressWsAux x inWs).1 = x := by
+  induction x generalizing inWs with
+  | nil => simp [compressWsAux]
+  | cons b tl ih =>
+    unfold compressWsAux at h ⊢
+    split at h
+    · split at h
+      · simp at h
+      · rename_i hsp hin
+        simp only [Bool.or_eq_false_iff] at h
+        have := ih true h.1
+        have hb : b = 0x20 := by simpa using h.2
+        simp_all
+    · have := ih false (by simpa using h)
+      simp_all
+
+theorem jsDecodeF_flag (f : Nat) (x : Bytes) (hl : x.length < f) (h : (jsDecodeF f x).2 = false) :
+    (jsDecodeF f x).1 = x := by
+  induction f generalizing x with
+  | zero => omega
+  | succ f ih =>
+    cases x with
+    | nil => simp [jsDecodeF]
+    | cons b tl =>
+      have hl' : tl.length < f := by simp at hl; omega
+      unfold jsDecodeF at h ⊢
+      split at h
+      · have := ih tl hl' (by simpa using h)
+        simp_all
+      · split at h
+        · simp_all
+        · simp at h
+
+theorem cmdLineAux_flag (x : Bytes) (space : Bool) (acc : Bytes) (ch : Bool)
+    (h : (cmdLineAux x space acc ch).2 = false) :
+    ch = false ∧ (cmdLineAux x space acc ch).1 = acc.reverse ++ x := by
+  induction x generalizing space acc ch with
+  | nil => simp_all [cmdLineAux]
+  | cons a tl ih =>
+    unfold cmdLineAux at h ⊢
+    by_cases c1 : (a == 0x22 || a == 0x27 || a == 0x5c || a == 0x5e) = true
+    · simp only [c1, if_true] at h
+      have := (ih space acc true h).1; simp at this
+    · simp only [c1, Bool.false_eq_true, if_false] at h ⊢
+      by_cases c2 : (a == 0x20 || a == 0x2c || a == 0x3b || a == 0x09 || a == 0x0d || a == 0x0a) = true
+      · simp only [c2, if_true] at h ⊢
+        by_cases c3 : space = true
+        · simp only [c3, Bool.not_true, Bool.false_eq_true, if_false] at h
+          have := (ih true acc true h).1; simp at this
+        · have c3' : space = false := by simpa using c3
+          simp only [c3', Bool.not_false, if_true] at h ⊢
+          obtain ⟨h1, h2⟩ := ih true (0x20 :: acc) _ h
+          simp only [Bool.or_eq_false_iff] at h1
+          have ha : a = 0x20 := by simpa using h1.2
+          refine ⟨h1.1, ?_⟩
+          rw [h2, ha]; simp
+      · simp only [c2, Bool.false_eq_true, if_false] at h ⊢
+        by_cases c4 : (a == 0x2f || a == 0x28) = true
+        · simp only [c4, if_true] at h ⊢
+          by_cases c3 : space = true
+          · simp only [c3, if_true] at h
+            have := (ih false _ true h).1; simp at this
+          · have c3' : space = false := by simpa using c3
+            simp only [c3', Bool.false_eq_true, if_false] at h ⊢
+            obtain ⟨h1, h2⟩ := ih false (a :: acc) ch h
+            exact ⟨h1, by rw [h2]; simp⟩
+        · simp only [c4, Bool.false_eq_true, if_false] at h ⊢
+          by_cases c5 : (65 ≤ a && a ≤ 90) = true
+          · simp only [c5, if_true] at h
+            have := (ih false _ true h).1; simp at this
+          · simp only [c5, Bool.false_eq_true, if_false] at h ⊢
+            obtain ⟨h1, h2⟩ := ih false (a :: acc) ch h
+            exact ⟨h1, by rw [h2]; simp⟩
+
+/-- **C14_flag_sound_jsDecode**: "unchanged" only with the input returned as it was, for every byte string -/
+theorem C14_flag_sound_jsDecode (x : Bytes) (h : (jsDecode x).changed = false) : (jsDecode x).out = x := by
+  unfold jsDecode at h ⊢
+  split
+  · rename_i hc
+    simp only [hc, if_true] at h
+    exact jsDecodeF_flag (x.length + 1) x (by omega) h
+  · rfl
+
+theorem C14_flag_sound_cmdLine (x : Bytes) (h : (cmdLine x).changed = false) : (cmdLine x).out = x := by
+  have := (cmdLineAux_flag x false [] false h).2
+  simpa [cmdLine] using this
+
+theorem C14_flag_sound_removeCommentsChar (x : Bytes) (h : (removeCommentsChar x).changed = false) :
+    (removeCommentsChar x).out = x :=
+  removeCommentsCharF_flag (x.length + 1) x (by omega) h
+
+theorem C14_flag_sound_compressWhitespace (x : Bytes) (h : (compressWhitespace x).changed = false) :
+    (compressWhitespace x).out = x :=
+  compressWsAux_flag x false h
+
+theorem C14_flag_sound_removeWhitespace (x : Bytes) (h : (removeWhitespace x).changed = false) :
+    (removeWhitespace x).out = x := by
+  simpa [removeWhitespace] using h
+
+example : removeWhitespace (b!" a\tb \n") = ⟨b!"ab", true, false⟩ := by decide +kernel
+
+/-- octal, hex and \u escapes decode to the byte they denote (the defect repaired by beb09da made
+    `\101` a NUL byte followed by "1") -/
+example : jsDecode (b!"\\101\\x41\\u0041\\n") = ⟨[0x41, 0x41, 0x41, 0x0a], true, false⟩ := by decide +kernel
+example : jsDecode (b!"\\477") = ⟨[0x27, 0x37], true, false⟩ := by decide +kernel
+example : cmdLine (b!"C^md  /c ,;\"dir\"") = ⟨b!"cmd/c dir", true, false⟩ := by decide +kernel
